@@ -107,6 +107,16 @@ CHECKS.update({
         "note": TRUST + " The 7-feature universe is in the thorough tier only.",
         "technique": "TLA+ lattice laws over the real tables (TLC) + exhaustive enumerated-case replay + trace judging",
     },
+    "C30": {
+        "text": "Belief.tla: TLC explores every behaviour of the compiled classical problem K together with the belief (set of states of the original conformant problem, initially the possible initial states given explicitly or derived by the specification from oneof/or/unknown constraints) of the mapped-back plan: a compiled goal state implies no mapped-back step was inapplicable in any possible state and every possible state is a goal state (soundness); full belief-space exploration of the original from the given states and from the states the compiler kept decides 'a conformant plan exists', full exploration of K decides 'compiled goal reachable', and BeliefJudge compares the answers (completeness, dropping dominated states, duplicate/added-state variants, kept tags are possible initial states).",
+        "note": M1NOTE + " Boolean problems with <= 6 ground fluents; both spaces are finite and fully explored (cap 2*10^5 states).",
+        "technique": "TLC belief-space exploration of the original problem vs exploration of the compiled problem, over artefacts recorded from the real Ks0Compiler",
+    },
+    "C34": {
+        "text": "HTNOrder.tla: Impl layer models ordering()/_build_total_order as written; Spec layer: Qualitative (every temporal constraint is a strict end-before-start precedence between subtasks), linear extensions, PartialOrder = exactly the given precedences, TotalOrder = the unique linear extension; T1 invariants DesignOK, PrecAgree, QualAgree. TLC enumerates every precedence relation (cyclic, redundant, duplicated, self-loops) over <= 4 subtasks (5 in the thorough tier) plus each mixed with one of 27 'other kind' constraints per ordered pair; real TaskNetwork / Method objects are built and partial_order()/total_order() recorded; the trace spec judges 9 clauses.",
+        "note": TRUST + " Unspecified zone (DESIGN 7.1-9, made smaller): a total order stated with a redundant pair, where the returned set R must satisfy R subset of P and TC(R) = TC(P).",
+        "technique": "TLA+ two-layer ordering model (TLC) + exhaustive TLC-enumerated relations replayed on real task networks and judged",
+    },
     "C31": {
         "text": "Generated finite-state problems with interpreted functions (finite tables) in conditions/effects, or with an oversubscription metric, are solved through interpreted_functions_planning[bfs] / oversubscription[bfs] (bfs = the exact breadth-first planner the property assumes, registered by the harness). TLC judges every returned plan with UPSeqSem!SeqVerdict on the original problem and explores the problem's whole reachable state space: a reported SOLVED_OPTIMALLY must have maximal gain among reachable goal states, and an UNSOLVABLE status / missing plan is only accepted when no reachable goal state exists.",
         "note": M1NOTE + " Assumes harness/bfsplanner.py is a correct underlying planner; state spaces are finite (Boolean/object fluents, bounded ints). The adversarial inner-status sequences of DESIGN.md (scripted engine) are not built.",
